@@ -234,15 +234,19 @@ def _width_residue():
     return out
 
 
-def rule_r_width(prog, res, floor_put=600, floor_parse=480, which=("put", "parse")):
+def rule_r_width(prog, res, floor_put=380, floor_parse=380, which=("put", "parse")):
     """R-width: at every put::<IT>(_, w) / parse::<IT>(w) call site of the crate, w lies in [1, BITS(IT)]."""
     nput = nparse = 0
+    fput = fparse = 0     # functions with at least one site: the floor counts these (388 / 387 today), so that merging the two puts of an
+                          # optional field into one put of a merged pattern does not look like lost coverage
     for p in sorted(prog.fns):
         f = prog.fns[p]
         wanted = tuple(x for x, n in ((PUT, "put"), (PARSE, "parse")) if n in which)
         sites = [(b, t) for b, t in f.calls() if callee_of(t) in wanted]
         if not sites:
             continue
+        fput += any(callee_of(t) == PUT for _, t in sites)
+        fparse += any(callee_of(t) == PARSE for _, t in sites)
         res.fn(f)
         fa = FA(f, prog)
         iv = Intervals(fa, prog)
@@ -277,9 +281,9 @@ def rule_r_width(prog, res, floor_put=600, floor_parse=480, which=("put", "parse
     active = set(prog.crate["features"])
     if "all_msgs" in active:
         if "put" in which:
-            res.floor("R-width", "put call sites", nput, floor_put)
+            res.floor("R-width", "functions with put call sites", fput, floor_put)
         if "parse" in which:
-            res.floor("R-width", "parse call sites", nparse, floor_parse)
+            res.floor("R-width", "functions with parse call sites", fparse, floor_parse)
     return nput, nparse
 
 
